@@ -30,10 +30,10 @@ from lib import PropertyCheck, clist, copt, cz  # noqa: E402
 
 I32MAX = 2**31 - 1
 STOKES = ['I', 'QU', 'IQU', 'IQUV']
-# Directions whose longitude lies within one ulp below 0: the pinned HealpixLandscape.world2pixel hands them to
-# jax_healpy, whose polar-cap branch then returns the first pixel of the NEXT ring (or npix -> -1).  Reported to the
-# lead with fixes/C17-healpix-phi-wrap.diff; True once that fix is in the tree (red without it).
-PHI_ULP_CLASS = False
+# Directions whose longitude lies within one ulp below 0: the pinned HealpixLandscape.world2pixel handed them to
+# jax_healpy, whose polar-cap branch then returns the first pixel of the NEXT ring (or npix -> -1).  Fixed by furax
+# commit 074fe93 (fixes/C17-healpix-phi-wrap.diff): the class is always on (red without that fix).
+PHI_ULP_CLASS = True
 
 # ----------------------------------------------------------------------------------------------
 # the real code
@@ -822,7 +822,6 @@ class Check(PropertyCheck):
         return pairs
 
     def broadcast_coverage_cases(self, nrng):
-        import healpy as hp
         import numpy as np
 
         quick = self.tier == 'quick'
@@ -872,9 +871,8 @@ class Check(PropertyCheck):
                         if larger:
                             c['pa_larger'] = True
                         out.append(c)
-        # HEALPix maps: directions are random (spread), the centres of two pixels (few) or of one pixel
+        # HEALPix maps: directions are random (spread), drawn from two values per field (few) or one (one)
         for nside in (1, 2) if quick else (1, 2, 4):
-            npix = 12 * nside**2
             for si, (d, n) in enumerate(sizes):
                 if quick and (si + nside) % 2:
                     continue
@@ -888,9 +886,12 @@ class Check(PropertyCheck):
                         if regime == 'spread':
                             th, ph = np.arccos(nrng.uniform(-1, 1, nt)), nrng.uniform(0, 6.28, nph)
                         else:
-                            pix = nrng.integers(0, npix, 2 if regime == 'few' else 1)
-                            tc, pc = hp.pix2ang(nside, pix)
-                            th, ph = nrng.choice(tc, nt), nrng.choice(pc, nph)
+                            # two (one) values per field: at most four (one) distinct generic directions, many hits
+                            # each.  (Not pixel centres: the theta of one centre with the phi of another is a pixel
+                            # corner, where single precision jax_healpy is erratic.)
+                            nv = 2 if regime == 'few' else 1
+                            th = nrng.choice(np.arccos(nrng.uniform(-1, 1, nv)), nt)
+                            ph = nrng.choice(nrng.uniform(0, 6.28, nv), nph)
                         land = 'frequency' if k % 5 == 0 else 'healpix'
                         c = {
                             'kind': 'coverage', 'land': land, 'nside': nside, 'name': f'broadcast-{regime}', 'stokes': STOKES[k % 4],
